@@ -2358,6 +2358,11 @@ def _emit_block(
             lines.append(f"{indent}      delay(__redu_off_ms);")
             lines.append(f"{indent}    }}")
             lines.append(f"{indent}  }}")
+            lines.append(f"{indent}  if (__redu_times <= 0) {{")
+            lines.append(f"{indent}    noTone({pin_code});")
+            lines.append(f"{indent}    {state_var} = false;")
+            lines.append(f"{indent}    {current_var} = 0.0f;")
+            lines.append(f"{indent}  }}")
             lines.append(f"{indent}}}")
             continue
 
